@@ -498,7 +498,14 @@ pub fn write_evidence(id: &str, evidence: &Value) {
     let dir = root.join("evidence");
     let _ = std::fs::create_dir_all(&dir);
     let path = dir.join(format!("{}.json", id));
-    let _ = std::fs::write(&path, serde_json::to_string_pretty(evidence).unwrap());
+    let text = serde_json::to_string_pretty(evidence).unwrap();
+    let _ = std::fs::write(&path, &text);
+    // the latest run of each tier is also kept side by side
+    if let Some(tier) = evidence.get("tier").and_then(|t| t.as_str()) {
+        let tdir = dir.join("by_tier");
+        let _ = std::fs::create_dir_all(&tdir);
+        let _ = std::fs::write(tdir.join(format!("{}.{}.json", id, tier)), &text);
+    }
 }
 
 /// Re-execute one saved case without proptest.
